@@ -84,7 +84,28 @@ func (f *c16file) add(s string) int {
 
 func c16filler(r *rand.Rand, f *c16file) {
 	for k := r.Intn(3); k > 0; k-- {
-		switch r.Intn(4) {
+		switch r.Intn(7) {
+		case 4:
+			// block comment spanning several lines
+			n := 2 + r.Intn(3)
+			f.add("/* block comment, line 1")
+			for i := 2; i < n; i++ {
+				f.add(fmt.Sprintf("   line %d of the comment", i))
+			}
+			f.add("   last line */")
+		case 5:
+			// raw string literal spanning several lines
+			f.add(fmt.Sprintf("raw%d := `first", len(f.lines)))
+			for i := r.Intn(3); i > 0; i-- {
+				f.add("  middle")
+			}
+			f.add("last`")
+		case 6:
+			// a statement continued over several lines, and a trailing block comment that ends on a later line
+			f.add(fmt.Sprintf("cont%d := [1,", len(f.lines)))
+			f.add("  2,")
+			f.add("  3] /* tail")
+			f.add("*/")
 		case 0:
 			f.add("")
 		case 1:
